@@ -20,6 +20,7 @@ import (
 	nethttp "net/http"
 	"os"
 	"path/filepath"
+	"regexp"
 	"sort"
 	"strconv"
 	"strings"
@@ -27,6 +28,7 @@ import (
 	"time"
 
 	"github.com/arm-doe/sts"
+	stslog "github.com/arm-doe/sts/log"
 )
 
 type zzViolation struct {
@@ -240,6 +242,11 @@ func TestZZVerif(t *testing.T) {
 	fmt.Fprintf(h, "%s/%d/%d", prop, seed, batch)
 	rng := rand.New(rand.NewSource(int64(h.Sum64())))
 
+	if prop == "C19" {
+		zzC19(t, res, rng, work, tier)
+		res.Completed = true
+		return
+	}
 	// ---- sandbox
 	env := &zzEnv{t: t, res: res, tokens: map[string]string{}}
 	env.sandbox = filepath.Join(work, "sandbox")
@@ -683,3 +690,130 @@ func zzC15(e *zzEnv, rng *rand.Rand, n int, variant int) {
 		}
 	}
 }
+
+// ---------------------------------------------------------------- C19 (wiring)
+
+// zzC19: the running sender applies each tag's settings to exactly the files
+// whose names match that tag's pattern, and the default tag's to all others.
+// A clientApp is built by its own init() from a generated source configuration;
+// the tag the running pieces apply to a name is read from the Broker's Tagger,
+// its tag table (delete / in-order) and from the store's ignore list (non-HTTP
+// tags), and compared with "first tag whose pattern matches the name".
+func zzC19(t *testing.T, res *zzResult, rng *rand.Rand, work, tier string) {
+	stslog.Init(filepath.Join(work, "messages"), false, nil, nil)
+	n := 60
+	if tier == "thorough" {
+		n = 1500
+	}
+	if m, err := strconv.Atoi(os.Getenv("VERIF_MAXN")); err == nil && m > 0 && m < n {
+		n = m
+	}
+	viol := func(idx int, clause, fp, detail string, sc any) {
+		if len(res.Violations) < 100 {
+			res.Violations = append(res.Violations, zzViolation{Clause: clause, Fingerprint: "C19/" + fp, Detail: detail, Scenario: sc, Index: idx})
+		}
+		res.Counters["violations_total"]++
+	}
+	pats := []string{`^prio/`, `^slow\.`, `\.raw$`, `\.(nc|cdf)$`, `^dir/sub/`, `_b1\.`, `^x`}
+	names := []string{"prio/a.001.dat", "prio/sub/b.raw", "slow.20200101.nc", "slowly.dat", "dir/sub/c.cdf", "dir/d.raw", "e_b1.20.nc", "x.dat", "xs/y.dat", "plain", "plain.dat", "dir/sub/deep/z.b1.raw", "q.raw", "nodots/file"}
+	for i := 0; i < n; i++ {
+		res.Evaluations++
+		ntags := 1 + rng.Intn(4)
+		type tagSpec struct {
+			Pattern  string `json:"pattern"`
+			Priority int    `json:"priority"`
+			Order    string `json:"order"`
+			Delete   bool   `json:"delete"`
+			Method   string `json:"method"`
+		}
+		var tags []tagSpec
+		tags = append(tags, tagSpec{Pattern: "DEFAULT", Priority: rng.Intn(3), Order: []string{"fifo", "none"}[rng.Intn(2)], Delete: rng.Intn(2) == 0, Method: "http"})
+		perm := rng.Perm(len(pats))
+		for j := 1; j < ntags; j++ {
+			tags = append(tags, tagSpec{Pattern: pats[perm[j-1]], Priority: 1 + rng.Intn(5), Order: []string{"fifo", "lifo", "none"}[rng.Intn(3)], Delete: rng.Intn(2) == 0, Method: []string{"http", "http", "disk"}[rng.Intn(3)]})
+		}
+		var tj []map[string]any
+		for _, tg := range tags {
+			tj = append(tj, map[string]any{"pattern": tg.Pattern, "priority": tg.Priority, "order": tg.Order, "delete": fmt.Sprint(tg.Delete), "method": tg.Method})
+		}
+		src := map[string]any{"name": "s", "out-dir": filepath.Join(work, "out"), "log-dir": filepath.Join(work, "log"), "threads": 2,
+			"target": map[string]any{"name": "t", "http-host": "127.0.0.1:1"}, "tags": tj}
+		if rng.Intn(3) == 0 {
+			src["group-by"] = []string{`^([^/]+)/`, `^([a-z]+)`}[rng.Intn(2)]
+		}
+		b, _ := json.Marshal(src)
+		conf := &sts.SourceConf{}
+		if err := json.Unmarshal(b, conf); err != nil {
+			res.Inconclusive++
+			continue
+		}
+		app := &clientApp{conf: conf, dirCache: filepath.Join(work, "cache")}
+		_ = os.MkdirAll(app.dirCache, 0o755)
+		if err := app.init(); err != nil {
+			res.Inconclusive++
+			res.InconcNotes = append(res.InconcNotes, "clientApp.init: "+err.Error())
+			continue
+		}
+		bc := app.broker.Conf
+		sc := map[string]any{"tags": tags, "group_by": src["group-by"]}
+		for _, name := range names {
+			// reference: first tag (after the default) whose pattern matches the NAME
+			want := 0
+			for j := 1; j < len(tags); j++ {
+				if ok, _ := regexpMatch(tags[j].Pattern, name); ok {
+					want = j
+					break
+				}
+			}
+			gotName := bc.Tagger(name)
+			got := 0
+			for j := 1; j < len(tags); j++ {
+				if gotName == tags[j].Pattern {
+					got = j
+				}
+			}
+			res.Counters["names_checked"]++
+			if got != want {
+				fp := "tag-lookup-mismatch"
+				// the look-up goes through the file's GROUP (group-by match), not its name
+				fp = "tag-looked-up-by-group-not-name"
+				viol(i, "tag-applies-to-matching-names", fp, fmt.Sprintf("%q: the running sender applies tag %q, but the first tag whose pattern matches the name is %q (tags %v, group-by %v)", name, tags[got].Pattern, tags[want].Pattern, tags, src["group-by"]), sc)
+				continue
+			}
+			// the tag's delete / order settings as the Broker will apply them
+			for _, ft := range bc.Tags {
+				if ft.Name == gotName || (gotName == "" && ft.Name == "") {
+					if ft.Delete != tags[want].Delete {
+						viol(i, "tag-settings-applied", "delete-setting", fmt.Sprintf("%q: delete=%v applied, tag %q says %v", name, ft.Delete, tags[want].Pattern, tags[want].Delete), sc)
+					}
+					break
+				}
+			}
+			// non-HTTP tags: the file must be ignored by the store, HTTP tags must not
+			f := zzFile{name: name}
+			ign := bc.Store.ShouldIgnore(f)
+			if tags[want].Method != "http" && !ign {
+				viol(i, "method-applied", "non-http-tag-not-ignored", fmt.Sprintf("%q matches tag %q with method %q but is not ignored by the store", name, tags[want].Pattern, tags[want].Method), sc)
+			}
+			if tags[want].Method == "http" && ign {
+				// ignored because a LATER non-http tag's pattern matches too: the first matching tag should win
+				viol(i, "method-applied", "http-tag-ignored-by-later-non-http-tag", fmt.Sprintf("%q matches tag %q (http) first but is ignored by the store", name, tags[want].Pattern), sc)
+			}
+		}
+		app.destroy()
+		res.Nontrivial[fmt.Sprintf("%v|%v", tags, src["group-by"])]++
+		if len(res.Samples) < 2 {
+			res.Samples = append(res.Samples, sc)
+		}
+	}
+}
+
+type zzFile struct{ name string }
+
+func (f zzFile) GetPath() string    { return "/x/" + f.name }
+func (f zzFile) GetName() string    { return f.name }
+func (f zzFile) GetSize() int64     { return 1 }
+func (f zzFile) GetTime() time.Time { return time.Unix(1700000000, 0) }
+func (f zzFile) GetMeta() []byte    { return nil }
+
+func regexpMatch(p, s string) (bool, error) { return regexp.MatchString(p, s) }
